@@ -31,10 +31,12 @@ def cell_lines(m, names):
     return [cell_push_line(m, n) for n in names]
 
 
-def word_lemma(word, target, immediate, arity=3):
+def word_lemma(word, target, immediate, arity=3, visible_loops=0):
     def body(L):
         cells = [L.cell(n) for n in ["c", "b", "a"][3 - arity:]]      # a on top
         pre = Pre(L, stack=cells)
+        if visible_loops:
+            pre.vec("loops").items = [L.sym("state::Loop", "loop%d" % i) for i in range(visible_loops)]
         fn, args = word_call(L, target, pre.xs)
         outs = L.run(fn, args, pre.pc, pre.roots())
         names = ["c", "b", "a"][3 - arity:]
@@ -45,13 +47,36 @@ def word_lemma(word, target, immediate, arity=3):
                 continue
 
             def cex(m, o=o):
+                if visible_loops:
+                    src = "3 0 do " * visible_loops + word + " drop " + "loop " * visible_loops
+                    return {"lines": ["eval " + src], "expect": [("no_panic",)]}
                 return {"lines": cell_lines(m, names) + ["eval " + word], "expect": [("no_panic",)]}
             L.fail(o, "`%s` must not panic: %s @ %s" % (word, (o.msg or "")[:100], (o.where or "")[:80]), cex=cex)
         L.witness(outs, lambda o: o.kind == "return", "`%s` returns on some path" % word)
     return body
 
 
+def arm_lemma(opcode):
+    """one step of the real VM on any state whose current instruction is `opcode`: no panic"""
+    def body(L):
+        from e2.lemmas.vm import VmPre
+        pre = VmPre(L, opcode=opcode)
+        outs = L.run("fetch_and_run", [pre.xs], pre.pc, pre.roots())
+        L.witness(outs, lambda o: o.kind == "return", "the %s arm returns" % opcode)
+        scen = {"LoadLocal": ["eval : f false if 1 local x then x ; f"], "InitLocal": ["eval : f 1 local x x ; f"], "Load": ["eval var v v"],
+                "CaseOf": ["eval 1 case 2 of 3 endof endcase"], "Loop": ["eval 3 0 do loop"], "Ret": ["eval : f ; f"]}.get(opcode)
+        for o in outs:
+            if o.kind != "return":
+                L.fail(o, "the %s instruction must not panic: %s" % (opcode, (o.msg or "")[:100]),
+                       cex=(lambda m: {"lines": scen, "expect": [("no_panic",)]}) if scen else None)
+    return body
+
+
 def run(L, tier, only=None):
+    from e2.lemmas.vm import OPCODES
+    for op in OPCODES:
+        if op != "Resolve" and (not only or op in only or "arms" in only):
+            L.lemma("C08 VM arm " + op, arm_lemma(op))
     covered, not_covered = [], []
     L.ex.path_budget = 1500 if tier == "quick" else 40000
     L.lemma_time_budget = 12 if tier == "quick" else 600
@@ -74,6 +99,11 @@ def run(L, tier, only=None):
                 continue
             n_und = len(L.undecided)
             L.lemma("C08 " + w, word_lemma(w, target, imm))
+            if w in ("I", "J", "K"):
+                # inside loops: the cheap shapes (fewer visible loops than the word reaches over) every time,
+                # the ones that go on to fetch the item only in the thorough tier
+                for nl in ([1, 2] if tier != "quick" else {"I": [], "J": [1], "K": [1, 2]}[w]):
+                    L.lemma("C08 %s inside %d loop(s)" % (w, nl), word_lemma(w, target, imm, visible_loops=nl))
             if len(L.undecided) > n_und:
                 # refusals are "not covered", not failures of the check
                 for (lem, why) in L.undecided[n_und:]:
